@@ -127,6 +127,8 @@ def describe(r: Dict[str, Any]) -> str:
         e = tr.get("exc", {})
         return f"translation raised {e.get('type')} at {e.get('where')}:{e.get('line')}: {e.get('msg', '')[:200]}"
     if not r["build"]["ok"]:
+        if r["build"]["stage"] == "includes":
+            return f"emitted package is not self-contained: {r['build']['errors'][:2]}"
         return f"emitted package does not {r['build']['stage']}: {r['build']['errors'][:2]}"
     m = r["verdict"]["mismatch"]
     return f"event {m['event']}: {m['why']}" if m else "?"
